@@ -227,6 +227,8 @@ def enc_deaths(prop, pfx):
     for tag, feat, same in (("PTR2", r"ptr2\+", "KF-C01-PTR2"), ("ARR1", "array1-ptr-shaped-elem", "KF-C01-ARR1"), ("PSTRUCT", "struct-ptr-shaped", "KF-C01-PSTRUCT"), ("MAPKEY", "mapkey-marshaler", "KF-C01-MAPKEY")):
         known(pfx + "-DEATH-" + tag, prop, "process", None, r"(fatal:.+|checkptr:.+|asan:.+)", r".* @ feature:" + feat,
               "worker process dies while encoding a type with this shape; same root cause as " + same, "see " + same, "see " + same, "see " + same)
+    known(pfx + "-DEATH-MPNIL", prop, "process", None, r"(fatal:out-of-memory|fatal:segv)", r"/internal/encoder\.AppendMarshal(JSON|Text)(Indent)? @ feature:marshalerP-by-value",
+          "worker process dies in AppendMarshalText/JSON on a pointer (nil *T, or **T) to a struct whose first member is a by-value pointer-receiver marshaler: the marshaler is called on a wrong address (garbage string length: fatal out of memory); same root cause as KF-C01-MPNIL", "see KF-C01-MPNIL", "see KF-C01-MPNIL", "see KF-C01-MPNIL")
 
 # ------------------------------------------------------------------ C03
 enc_deaths("C03", "KF-C03")
